@@ -161,3 +161,27 @@ def _body_paths(check):
     check.obs[n0:] = [o for o in check.obs[n0:] if "boundary]" in o.construct]
     for o in check.obs[n0:]:
         o.rule = "STN-MIRROR"
+    # ---- the implicit family under reflection: the linear system pairs every unknown with the time step and the
+    # Jacobian row of ITS OWN cell -- an expansion of the per-cell step in another order (np.tile) or a scaling on the
+    # column side is not closed under the cell-order reversal (same obligations as C06 TH-SCHEME, these clauses only)
+    from . import c06
+    for c in c06.implicit_classes(proj):
+        n0 = len(check.obs)
+        check.guarded("STN-MIRROR", c.qualname, lambda: c06.th_scheme(check, proj, c), c.loc())
+        kept = []
+        for o in check.obs[n0:]:
+            if o.status == "violation" and o.key in ("dt-tiled", "col-scaling", "varmajor"):
+                o.rule = "STN-MIRROR"
+                kept.append(o)
+            elif o.status == "undecided":
+                o.rule = "STN-MIRROR"
+                kept.append(o)
+        if not kept:
+            check.ok("STN-MIRROR", c.qualname, "the implicit system pairs each unknown with the time step and Jacobian row of its own cell (interleaved layout throughout)", c.loc())
+        check.obs[n0:] = kept + check.obs[len(check.obs):]
+    # ---- sources of the nozzle model: each equation gets ITS OWN geometric source (mass / momentum / energy have
+    # different parities under reflection and different dimensions): same obligations as C19 NOZ-COMPOSE
+    from . import c19
+    n0 = len(check.obs)
+    check.guarded("NOZ-COMPOSE", "euler.nozzle", lambda: c19.noz_compose(check, proj))
+
